@@ -96,9 +96,11 @@ func finishEvalFamily(r *Run, fam string, st modelStats, sessions []Sess, theore
 // ---------------------------------------------------------------------------
 // C06
 
-var dollarAlphabet = []string{"$", "$", "a", "b", "{", "}", ":", ".", "\"", " ", "é", "A", "1", "-"}
+var dollarAlphabet = []string{"$", "$", "a", "b", "{", "}", ":", ".", "\"", " ", "é", "A", "1", "-", "€", "日", "→", "ß", "Ω"}
 var dollarTokens = []string{"$merge:x", `$"{a}"`, "$required", "$delete", "$match", "$output", "$env:HOME", "$repeat",
-	"$value", "$encode", "$replace", "$parent", "$FOO", "${X}", "$(cmd)", "$$", "$1", "$replace:a", "$é", "$Éa", "a$b$$c", "$", `$"`, "x$"}
+	"$value", "$encode", "$replace", "$parent", "$FOO", "${X}", "$(cmd)", "$$", "$1", "$replace:a", "$é", "$Éa", "a$b$$c", "$", `$"`, "x$",
+	// "$" followed by characters of two and three bytes in UTF-8, lower-case and not
+	"$€100", "$日本", "$→ next", "$ßeta", "$Ωmega", "$ω", "$中", "$ж", "$Ж"}
 
 func dollarString(g *gen.G) string {
 	if g.P(0.35) {
@@ -306,7 +308,16 @@ func C07(r *Run) {
 	g.Keys = append(g.Keys, "$bogus", "$match", "$value", "$delete")
 	n := r.Pick(2500, 50000)
 	var sessions []Sess
+	gSmall := g
+	gBig := gen.New(r.Seed*86028121 + 100007).Big()
+	gBig.ReqP = 0.1
+	gBig.Strs = append(gBig.Strs, "$required", "$delete", "$bogus", "$match", "$replace", "$output", "$Upper", "$1", "$merge:nope", "$value")
+	gBig.Keys = append(gBig.Keys, "$bogus", "$match", "$value", "$delete")
 	for i := 0; i < n; i++ {
+		g = gSmall
+		if i%12 == 11 {
+			g = gBig // the large regime
+		}
 		s := real.NewSess()
 		lines := [][]byte{J(map[string]any{"ev": "Reset"})}
 		var cur any = g.Map(3)
@@ -388,11 +399,17 @@ func refSession(g *gen.G) Sess {
 	g.ReqP = 0
 	defer func() { g.ReqP = saveReq }()
 	keys := []string{"ta", "tb", "tc", "k.dot", "hid"}
+	kx, ky, kz := "x", "y", "z"
+	if g.P(0.3) {
+		// keys outside ASCII (multi-byte in UTF-8): paths are split and looked up by character
+		keys = []string{"база", "café", "設定", "k.dot", "hid"}
+		kx, ky, kz = "größe", "clé", "既定"
+	}
 	root := map[string]any{}
 	for _, k := range keys[:3] {
 		switch g.N(3) {
 		case 0:
-			root[k] = map[string]any{"x": g.N(3), "y": map[string]any{"z": g.Pick([]string{"s", "t"}), "w": []any{g.N(3)}}}
+			root[k] = map[string]any{kx: g.N(3), ky: map[string]any{kz: g.Pick([]string{"s", "t"}), "w": []any{g.N(3)}}}
 		case 1:
 			root[k] = []any{g.N(3), map[string]any{"a": g.N(2)}, "e"}
 		default:
@@ -464,7 +481,7 @@ func refSession(g *gen.G) Sess {
 		if isMap {
 			local := map[string]any{"own": 9}
 			if g.P(0.4) {
-				local["y"] = map[string]any{"extra": true}
+				local[ky] = map[string]any{"extra": true}
 			}
 			if _, hid := tm["$output"]; hid {
 				ref, inline = map[string]any{"$replace": pathList}, val
@@ -545,6 +562,7 @@ func C11(r *Run) {
 	n := r.Pick(3000, 60000)
 	var sessions []Sess
 	for i := 0; i < n; i++ {
+		wideTrees = i%15 == 14 // every 15th stream in the large regime
 		nd := 1 + g.N(2)
 		docs := []any{}
 		for j := 0; j < nd; j++ {
@@ -563,14 +581,27 @@ func C11(r *Run) {
 
 // markedTree: plain data with $output markers; inList: the value is a direct
 // list entry (a marked map there is the known finding c11-map-in-list).
+// wideTrees: the next generated tree is in the large regime (maps of 8-28 keys and
+// lists of up to 20 entries at the top two levels).
+var wideTrees = false
+
 func markedTree(g *gen.G, d int, inList bool) any {
 	if d <= 0 || g.P(0.25) {
 		return g.Pick([]string{"a", "b", "1", ""})
 	}
+	wide := wideTrees && d >= 2
 	if g.P(0.6) {
 		m := map[string]any{}
-		for i := 1 + g.N(3); i > 0; i-- {
-			m[g.Pick([]string{"p", "q", "r", "s"})] = markedTree(g, d-1, false)
+		nk := 1 + g.N(3)
+		if wide {
+			nk = 8 + g.N(20)
+		}
+		for i := nk; i > 0; i-- {
+			k := g.Pick([]string{"p", "q", "r", "s"})
+			if wide {
+				k = fmt.Sprintf("%s%02d", k, g.N(30))
+			}
+			m[k] = markedTree(g, d-1, false)
 		}
 		if !inList && g.P(0.35) {
 			m["$output"] = g.P(0.6)
@@ -578,7 +609,11 @@ func markedTree(g *gen.G, d int, inList bool) any {
 		return m
 	}
 	l := []any{}
-	for i := g.N(3); i > 0; i-- {
+	nl := g.N(3)
+	if wide {
+		nl = 5 + g.N(16)
+	}
+	for i := nl; i > 0; i-- {
 		l = append(l, markedTree(g, d-1, true))
 	}
 	if g.P(0.35) {
@@ -842,6 +877,14 @@ func interpSession(g *gen.G) Sess {
 	paths := map[string]any{"n": doc["n"], "s": doc["s"], "f": doc["f"], "b": doc["b"], "m.x": doc["m"].(map[string]any)["x"],
 		"m.deep.y": doc["m"].(map[string]any)["deep"].(map[string]any)["y"]}
 	pkeys := []string{"n", "s", "f", "b", "m.x", "m.deep.y"}
+	if g.P(0.3) {
+		// references whose names are outside ASCII (document keys and an environment variable)
+		doc["größe"] = g.N(50)
+		doc["сервер"] = map[string]any{"порт": g.N(9000)}
+		paths["größe"] = doc["größe"]
+		paths["сервер.порт"] = doc["сервер"].(map[string]any)["порт"]
+		pkeys = append(pkeys, "größe", "сервер.порт", "größe", "сервер.порт")
+	}
 	envVals := []string{"alpha", "42", "true", "null", "", "a b", "1.5", "-7", "é", "x:y", "{z}", "[1]", "~", "k=v", "user=admin;pw=x", "=lead", "pad=="}
 	env := map[string]string{"BKLV_V1": g.Pick(envVals), "BKLV_V2": g.Pick(envVals), "BKLV_K": g.Pick(envVals)}
 	lit := func() string {
@@ -881,7 +924,7 @@ func interpSession(g *gen.G) Sess {
 			tmpl.WriteString("{$env:BKLV_UNSET_" + fmt.Sprint(g.N(3)) + "}")
 			bad = true
 		default:
-			tmpl.WriteString("{" + g.Pick([]string{"nope", "m.nope", "m.x.y", "n.z"}) + "}")
+			tmpl.WriteString("{" + g.Pick([]string{"nope", "m.nope", "m.x.y", "n.z", "fehlt_ü", "нет"}) + "}")
 			bad = true
 		}
 		l := lit()
